@@ -21,6 +21,7 @@ func (r vReader) Read([]byte) (int, error) { return 0, io.EOF }
 func (r vReader) Close() error             { *r.closed++; return nil }
 
 func (e *vEngine) VirtualizationLogs(context.Context, *enginetypes.VirtualizationLogStreamOptions) (io.ReadCloser, io.ReadCloser, error) {
+	defer vGuard()()
 	if e.w.fault("engine.VirtualizationLogs") {
 		return nil, nil, vErrInjected
 	}
@@ -28,6 +29,7 @@ func (e *vEngine) VirtualizationLogs(context.Context, *enginetypes.Virtualizatio
 }
 
 func (e *vEngine) VirtualizationWait(_ context.Context, id, _ string) (*enginetypes.VirtualizationWaitResult, error) {
+	defer vGuard()()
 	if e.w.fault("engine.VirtualizationWait") {
 		return nil, vErrInjected
 	}
